@@ -134,6 +134,9 @@ func knownNonNilErr(v ssa.Value, pred *ssa.BasicBlock) bool {
 			return true
 		}
 	}
+	if IsSentinelErr(rawStrip(v)) {
+		return true
+	}
 	return knownNonNilOn(pred, v)
 }
 
